@@ -121,7 +121,8 @@ let () =
         let m = text_to_html t ivs in
         let o = str_of_field (String.sub out 1 (String.length out - 1)) in
         let verdict =
-          if same <> "1" then "fail:ui-html-member-is-not-the-sanitised-body"
+          if same = "ERR" then "fail:sanitiser-returned-error"
+          else if same <> "1" then "fail:ui-html-member-is-not-the-sanitised-body"
           else if not (matches_plain (escape_std t) ivs) then "fail:url-match-empty-or-with-line-break"
           else if not (text_spec t o) then "fail:text-not-fully-escaped"
           else match html_verdict rep with
